@@ -43,7 +43,8 @@ def objective_value(name: str, x):
         if name == "pyviolation":
             # total constraint violation written with Python's builtin max: max(0.0, nan) is 0.0, so a NaN coordinate contributes NOTHING - a NaN candidate looks
             # perfectly feasible and wins every comparison (the opposite of the arithmetic objectives, under which a NaN candidate loses every comparison)
-            return float(sum(max(0.0, abs(float(t)) - 1.0) for t in v))
+            # (the constraints x_i >= 1.5 and sum(x) <= 2 are inconsistent: every real point costs >= 1, only a NaN point costs 0)
+            return float(sum(max(0.0, 1.5 - float(t)) for t in v) + max(0.0, float(sum(float(t) for t in v)) - 2.0))
         if name == "deathpenalty":                                                            # the usual hard-constraint idiom: +inf outside the feasible region
             return float(np.sum(v * v)) if bool(np.all(np.abs(v) <= 6.0)) else float("inf")
         if name == "violation": return float(np.sum(np.maximum(0.0, np.abs(v) - 4.0)))        # a constraint-violation measure: exactly 0.0 on a large feasible region, positive outside
@@ -186,8 +187,7 @@ def build_task(t: dict, record: str | None = None):
         data["coords"] = np.arange(2 * t["coords"], dtype=float).reshape(t["coords"], 2) / 3.0
     task = SpecTask(variables=build_vars(t["vars"], t.get("names")), minmax=t.get("minmax", "min"), data=data, **kw)
     if t.get("raw_minmax"):
-        # the direction written as the documented STRING after construction (`task.minmax = "max"`): pydantic does not validate assignments, the field then holds the
-        # plain string; the library compares with `== TaskType.MIN ... else`, so such a task is a maximisation / minimisation task like any other
+        # the direction written as the documented STRING after construction (`task.minmax = "max"`): a maximisation / minimisation task like any other
         task.minmax = t.get("minmax", "min")
     return task
 
